@@ -194,3 +194,38 @@ func VerifC11WarmStarve() {
 		rt.AssertExcept(allowed2 >= 1 || c.storedTokens != before, "a rejected steady single-token demand makes progress (the bucket moves or the rate reaches one): it is not starved forever", "D30", uint32(g.thr)/cold == 0)
 	}
 }
+
+// VerifC11WarmRace: two requests arrive at once as the first ones after an idle period long enough
+// to refill the bucket (context switches at every atomic operation): both are held to the cold rate.
+func VerifC11WarmRace() {
+	g := verifWarmGrid[rt.Param("GRID")]
+	r := &Rule{Resource: "W", TokenCalculateStrategy: WarmUp, ControlBehavior: Reject, Threshold: g.thr, WarmUpPeriodSec: g.period, WarmUpColdFactor: g.cold}
+	st := &verifQpsStat{}
+	tsc := &TrafficShapingController{rule: r, boundStat: standaloneStatistic{readOnlyMetric: st}}
+	c := NewWarmUpTrafficShapingCalculator(tsc, r).(*WarmUpTrafficShapingCalculator)
+	cold := g.cold
+	if cold <= 1 {
+		cold = 3
+	}
+	if c.maxToken <= c.warningToken || uint32(g.thr)/cold == 0 {
+		return
+	}
+	stored := int64(rt.U32n("stored", 8))
+	rt.Assume(stored <= int64(c.maxToken))
+	c.storedTokens = stored
+	last := uint64(2000000000000)
+	c.lastFilledTime = last
+	idleMs := uint64((float64(c.maxToken)+2)*1000.0/g.thr) + 1001
+	rt.SetClockMs(last + idleMs)
+	st.prev = 0
+	var allowed [2]float64
+	for i := 0; i < 2; i++ {
+		i := i
+		rt.Spawn(func() { allowed[i] = c.CalculateAllowedTokens(1, 0) })
+	}
+	rt.Join()
+	rt.Reach("c11.race")
+	for i := 0; i < 2; i++ {
+		rt.Assert(allowed[i] <= g.thr/float64(cold)*1.01+1e-9, "after idling, each of two simultaneous first requests is held to about threshold/coldFactor")
+	}
+}
